@@ -44,6 +44,12 @@ def fixed_cases(tier):
         {"kind": "notify", "nev": 2, "eps": 3, "script": [["sub", 0], ["rounds", 3], ["unsub", 0], ["sub", 0], ["rounds", 2], ["sub", 1], ["rounds", 2], ["unsub", 0], ["unsub", 1], ["sub", 1], ["sub", 0], ["rounds", 2]]},
         {"kind": "notify", "nev": 4, "eps": 3, "script": [["sub", 0], ["rounds", 100], ["sub", 1], ["rounds", 16300], ["unsub", 0], ["sub", 2], ["rounds", 200], ["sub", 0], ["rounds", 3]]},
     ]
+    # a datagram of several notifications straddles the wrap at every alignment (k single notifications shift it)
+    for nev in (3, 4):
+        for k in range(nev):
+            out.append({"kind": "notify", "nev": nev, "eps": 1, "script": [["sub", 0]] + [["subset", 1]] * k + [["rounds", 65535 // nev + 3]]})
+    # eventgroups of many events: the initial notification of a new subscriber and an explicit round issued in the same iteration
+    out.append({"kind": "notify", "nev": 20, "eps": 2, "script": [["sub!", 0], ["rounds!", 2], ["sub!", 1], ["rounds", 2], ["unsub!", 0], ["sub!", 0], ["rounds!", 1], ["hop", 1], ["rounds", 2]]})
     if tier == "thorough":
         out.append({"kind": "notify", "nev": 1, "eps": 2, "script": [["sub", 0], ["rounds", 65533], ["sub", 1], ["rounds", 5], ["unsub", 1], ["sub", 1], ["rounds", 65540]]})
         out.append({"kind": "sd", "blocks": [[d, c, 0] for c in (30000, 30000, 5534, 3) for d in (0, 1, 2, 3)] + [[1, 65536, 0], [3, 2, 1]]})
@@ -53,7 +59,7 @@ def fixed_cases(tier):
 @st.composite
 def _case(draw):
     if draw(st.integers(0, 3)) == 0:
-        nev = draw(st.integers(1, 4))
+        nev = draw(st.sampled_from([1, 2, 3, 4, 4, 17, 20]))
         script = []
         for _ in range(draw(st.integers(1, 10))):
             op = draw(st.sampled_from(["sub", "sub", "unsub", "rounds", "rounds", "subset", "sub!", "unsub!", "rounds!", "hop", "hop"]))
@@ -210,7 +216,7 @@ def _ep_addr(i):
 
 
 def _run_notify(case):
-    nev = max(1, min(4, case.get("nev", 1)))
+    nev = max(1, min(24, case.get("nev", 1)))
     counts = {}
     crossed = set()
     nontrivial = False
